@@ -48,6 +48,12 @@ checks = {
  "C14": ("model_checking", "xstate", E2,
          "Network channel-plan states of the 11 dynamic bands are explored by explicit-state BFS (AddChannel x2 kinds up to 4 additions, Toggle of every channel, until the state set closes); in every state every device subset (incl. one index beyond the plan) is planned by the band, applied by an independent device-side LinkADRReq model and by the library's own apply function; the full 16-channel plan with all 2^16 device subsets; US915/AU915/CN470 over products of per-block patterns for both the network and the device set, network sets produced by real Disable/Enable calls.",
          "72/96-channel plans use pattern products (quick 4 / thorough 7 patterns per 16-channel block), not all 2^72 subsets; the device model mc/spec/region.go is written from the LoRaWAN/RP002 ChMaskCntl tables."),
+ "C18": ("exploration", "enum", E1,
+         "Every payload type of the four application-layer packages (35 types, both directions): complete products of all in-width field values (or per-field complete sweeps when the product exceeds 200 000) through MarshalBinary/Size/UnmarshalBinary and the Command framing; every command sequence of length <= 3 over the direction's full command set x 2 values and of length 4..6 over a 4-command sub-alphabet through Commands.UnmarshalBinary; multicast key derivations against independent AES over key and McAddr alphabets with single-bit walks.",
+         "Field widths from TS003-TS006; 16/24/32-bit fields use {0,1,max,alternating, every single bit}."),
+ "C19": ("exploration", "enum", E1,
+         "All fragment counts 1..300 with 100 parity lines each against an independent transcription of the TS004 matrix_line, systematic/linearity checks over fragment sizes 1..64, every erasure pattern of <= 2 lost data fragments for M <= 64 through an independent GF(2) decoder fed with the encoder's output, and the invalid-argument family.",
+         "Linearity (checked) reduces arbitrary data to basis vectors."),
 }
 
 def load_extra():
